@@ -89,6 +89,21 @@ def real_route(elements, trailing, mode):
 
 
 def check_assignment(elements, result, path, mode):
+    try:
+        return _check_assignment(elements, result, path, mode)
+    except (ValueError, TypeError, KeyError, IndexError):
+        return False
+
+
+def safe_match(route, path):
+    """match_path must never raise ("a segment that fails conversion makes the route not match instead of raising")"""
+    try:
+        return route.match_path(path), None
+    except Exception as e:        # noqa
+        return None, e
+
+
+def _check_assignment(elements, result, path, mode):
     """the values handed to the endpoint are conversions of the path's segments, in order."""
     convs = {'str': str, 'int': int, 'float': float}
     segs = [s for s in path.split('/') if s] if mode != 'strict' else path.split('/')[1:]
@@ -158,7 +173,10 @@ def _work(chunk):
                 else:
                     rec['verdicts'].append((tag, 'sat'))
                     # replay on the real route with python re as the concrete oracle
-                    got = route.match_path(w)
+                    got, exc = safe_match(route, w)
+                    if exc is not None:
+                        rec['witness'] = dict(tag='raises', path=w, match_path=repr(exc), reproduces=True, elements=elements, trailing=trailing)
+                        continue
                     if tag == 'must_subset_impl':
                         should = re.match(spec_regex_text(elements, trailing, mode, T_MUST), w) is not None
                         real_violation = should and got is None
@@ -203,7 +221,11 @@ def _validate_translator(sample, res, maxlen):
                 res.errors.append(dict(name='translator', reason='z3 Re and python re disagree on %r for %r' % (s, patt)))
                 break
             if a:
-                got = route.match_path(s)
+                got, exc = safe_match(route, s)
+                if exc is not None:
+                    p = write_replay('C05', 'raises', dict(property='C05', engine='E4', kind='raises', elements=elements, trailing=trailing, mode=mode, path=s, exc=repr(exc)))
+                    res.violations.append(dict(name='match_path_raises', args=(patt, mode, s), how='match_path raised %r instead of returning None' % (exc,), replay=p))
+                    break
                 if kf_multi and mode != 'strict' and '//' in s:
                     continue        # known finding C05-multi-repeated-slashes (decided by the multi_converter obligation + witness)
                 if got is not None and not check_assignment(elements, got, s, mode):
@@ -288,6 +310,10 @@ def replay(pl):
     route, patt = real_route(elements, pl['trailing'], pl['mode'])
     got = route.match_path(pl['path'])
     print('pattern %s mode %s path %r -> %r' % (patt, pl['mode'], pl['path'], got))
+    if k == 'raises':
+        got, exc = safe_match(route, pl['path'])
+        print('match_path raised %r' % (exc,))
+        return 1 if exc is not None else 0
     if k == 'conversion':
         bad = got is not None and not check_assignment(elements, got, pl['path'], pl['mode'])
     elif pl['tag'] == 'must_subset_impl':
